@@ -185,3 +185,31 @@ check('C19', 'exploration',
       'DESIGN.md §3 C19')
 for k in CHECKS:
     NOT_YET.pop(k, None)
+
+check('C15', 'model_checking',
+      'exhaustive enumeration of score matrices and of all K!^F permutation fields; brute-force optimum as oracle',
+      "All score matrices over {0,1,2} (K<=3, int and float) and, for K=4..6, every permutation matrix with every "
+      "single-entry perturbation over {-1,0,1,2} plus a generic matrix per permutation: the 'optimal' total equals "
+      'the brute-force maximum over all permutations and the linear_sum_assignment optimum and is never below the '
+      'greedy total. For vetted references (pairwise distinct rows; generic, small-integer and 1e-9-near-equal '
+      'kinds) every one of the K!^F per-frequency permutation fields (K,F<=3; K=4,F=5: <=2 non-identity bins) is '
+      'undone exactly by the oracle aligner for every metric and both algorithms; flattened (K, F*T) inputs resolve '
+      'every global permutation.',
+      'near-equal references are only resolvable (in floating point) by the euclidean metric and are checked there.',
+      'DESIGN.md §3 C15')
+check('C16', 'model_checking',
+      'exhaustive permutation fields for small F, deviation-bounded fields for large F, every DHTV plan; TLC plan model replayed against alignment_plan',
+      'Greedy aligner: all K!^F fields for (K,F) in {(2,9),(3,5)} (thorough +(2,13),(3,7)); for F in {33,65,257,513} '
+      'all piecewise-constant fields with <=2 change points plus alternating / single-flip / block-rotation families. '
+      'DHTV: every field of the stated domain (>=70 % majority in the first segment, every placement and order of '
+      'the minority) for small F on every plan whose later segments overlap the covered band by >=2/3 (computed from '
+      'alignment_plan), the shipped 512/1024 defaults and custom plans on large F with adversarial content outside '
+      'the first segment; identity on consistent masks; all 58,904 plans for STFT sizes <=64 cover every bin and '
+      'equal the reference plan; on tie-free continuous masks the mapping equals the loop-level reference procedure '
+      'and reproduces its converged features; DHTVPlan.tla is model-checked by TLC (MaxF 7 quick / 17 thorough) and '
+      'every model behaviour is replayed step by step against alignment_plan.',
+      'Masks that are not tie-free for the procedure (exact or near ties in any assignment) are skipped in the '
+      'net-reordering clause and counted.',
+      'DESIGN.md §3 C16, Appendix B')
+for k in CHECKS:
+    NOT_YET.pop(k, None)
